@@ -31,6 +31,9 @@ rule("C13.k", "a full-grid series taken from the price data is brought to the as
               "each interval) - prices and limits alike", floor=3)
 
 
+rule("C02.k", "numbers computed from user data are real: an array that receives averages, products with step lengths or prorated volumes does "
+              "not take its dtype from the user's series (dtype=<series>.dtype, astype(<series>.dtype), empty_like / zeros_like of the series) - an "
+              "availability profile given as integers would truncate every coarse-step average (4.9 MW -> 4 MW)", floor=0, props=["C02", "C13"])
 rule("C13.m", "the mapping is extended to the minor grid (one row per fine step, with its share) wherever the asset has a coarser frequency - "
               "the extension depends on that test alone, not on the class of the object - and before anything selects mapping rows by time step "
               "(define_restr matches the steps of a take period): a take restriction built on the unextended frame sees the first fine step of "
@@ -41,7 +44,7 @@ rule("C13.l", "the average of a fine series over the fine steps of a coarse inte
               "a daylight-saving switch, not on a monthly grid)", floor=3)
 
 
-@analysis("minorgrid", ["C01.g", "C13.e", "C13.k", "C13.l", "C13.m"])
+@analysis("minorgrid", ["C01.g", "C13.e", "C13.k", "C13.l", "C13.m", "C02.k"])
 def run(ctx):
     p = ctx.p
     n_sites = 0
@@ -231,3 +234,33 @@ def run(ctx):
             n_m += 1
             ctx.ob("C13.m", fn, "take restrictions on the frame of the parent's set-up", True, ok_detail="extension is the parent's job (checked there)", trivial=True)
     ctx.require(n_m >= 4, "fewer than 4 extensions of a mapping to the minor grid found", rules=["C13.m"])
+
+
+    # ================================================================= C02.k no dtype inherited from user series
+    n_k2 = 0
+    for fn in sorted(p.all_functions(), key=lambda f: f.qualname):
+        if fn.parent is not None or fn.cls is None or not p.is_subclass(fn.cls, "Asset"):
+            continue
+        org2 = None
+        for st in au.walk_stmts(fn.body):
+            for c in au.walk_own(st):
+                if not isinstance(c, ast.Call):
+                    continue
+                dt_args = [k.value for k in c.keywords if k.arg == "dtype"]
+                if au.method_name(c) == "astype" and c.args:
+                    dt_args.append(c.args[0])
+                likes = [c.args[0]] if (au.method_name(c) or "").endswith("_like") and c.args and au.kwarg(c, "dtype") is None else []
+                srcs = [a.value for a in dt_args if isinstance(a, ast.Attribute) and a.attr == "dtype"] + likes
+                for src in srcs:
+                    org2 = org2 or ctx.origins(fn, values_only=True)
+                    from_prices = any(isinstance(x, ast.Subscript) and isinstance(x.value, ast.Name) and x.value.id == "prices" for x in org2.nodes(src, st)) or \
+                        any(isinstance(x, ast.Name) and x.id == "prices" for x in org2.nodes(src, st))
+                    if not from_prices:
+                        continue
+                    n_k2 += 1
+                    ctx.ob("C02.k", fn, au.short(c, 80), False,
+                           "the array takes its dtype from %s, a series of the price data: when that series is given as integers (an availability profile in "
+                           "whole MW, an on / off profile) every value written into the array is truncated - the weighted average of a coarse step 4.9 -> 4, the "
+                           "limit of the step is too small and the optimum falls short of the reference (9693.6 vs 10559.1)" % au.short(src, 30), node=c)
+    if n_k2 == 0:
+        ctx.ob("C02.k", "package", "dtype of computed arrays", True, ok_detail="no array takes its dtype from a series of the price data")
